@@ -88,7 +88,7 @@ CvDrainVirtualKeys(cv, dq) ==
       cv1 == [cv EXCEPT !.q = r.keep]
   IN [cv |-> IF r.ovf THEN CvPanic(cv1, "assert:oops overflowed drain queue") ELSE cv1, dq |-> r.dq]
 
-\* the closure applied to the active chords for Release(_, j) (chord.rs:294-305)
+\* src: chord.rs release_in_active_chords(achs, j) (the closure of drain_releases until 6c7bac1)
 CvReleaseIn(ach, j) ==
   [i \in DOMAIN ach |->
      IF j \notin ach[i].ks THEN ach[i]
@@ -161,7 +161,18 @@ CvPressLoop(st, presses, possible, layer, since, relFound, cign) ==
        ELSE CvPressLoop([cv |-> [cv EXCEPT !.tuns = CvSatSub(minTo, since)], acc |-> acc, cands |-> cands,
                          brk |-> FALSE], Tail(presses), possible, layer, since, relFound, cign)
 
-CvProcessPresses(cv, tbl, cign, layer) ==
+\* the retain closure of 513-526: `consumed` loses the key of every press it removes
+RECURSIVE CvRemoveConsumed(_, _)
+CvRemoveConsumed(q, consumed) ==
+  IF q = <<>> THEN <<>>
+  ELSE LET e == Head(q)
+           I == {i \in DOMAIN consumed : consumed[i] = e.y}
+       IN IF e.p /\ I # {}
+          THEN LET i == CHOOSE k \in I : \A j \in I : k <= j IN
+               CvRemoveConsumed(Tail(q), SubSeq(consumed, 1, i - 1) \o SubSeq(consumed, i + 1, Len(consumed)))
+          ELSE <<e>> \o CvRemoveConsumed(Tail(q), consumed)
+
+CvProcessPresses(cv, tbl, cign, layer, bug) ==
   LET sc == CvScanPresses(cv.q, <<>>)
       presses == sc.presses
       n0 == Len(cv.ach)
@@ -179,23 +190,34 @@ CvProcessPresses(cv, tbl, cign, layer) ==
                                                  lp.acc, layer) IN
                             IF f # <<>> THEN CvActivate(cv1, f[1], since, sc.rel) ELSE [cv1 EXCEPT !.ign = cign]
                        ELSE cv1
-                \* 513-518
+                \* "Clear presses from the queue if they were consumed by a chord" (fix e173bdb): only one press per
+                \* accumulated key - the first in the queue - is removed; a later press of the same key stays queued.
+                \* bug = "chv2_drop_all_presses": the behaviour before the fix (every press of an accumulated key).
                 cv3 == IF Len(cv2.ach) > n0
-                       THEN [cv2 EXCEPT !.q = SelectSeq(@, LAMBDA e : ~(e.p /\ CvHas(lp.acc, e.y)))]
+                       THEN IF bug = "chv2_drop_all_presses"
+                            THEN [cv2 EXCEPT !.q = SelectSeq(@, LAMBDA e : ~(e.p /\ CvHas(lp.acc, e.y)))]
+                            ELSE [cv2 EXCEPT !.q = CvRemoveConsumed(@, lp.acc)]
                        ELSE cv2
             IN cv3
 
 \* src: chord.rs:245 drain_inputs.  returns [cv, dq]
-CvDrainInputs(cv, dq, tbl, cign, layer) ==
+RECURSIVE CvReleaseAll(_, _)
+CvReleaseAll(ach, q) == IF q = <<>> THEN ach
+                        ELSE CvReleaseAll(IF Head(q).p THEN ach ELSE CvReleaseIn(ach, Head(q).y), Tail(q))
+CvDrainInputs(cv, dq, tbl, cign, layer, bug) ==
   \* src: chord.rs drain_inputs (fix 7d8a52c): ticks_until_next_state_change = 0 - the fast-path counter of an
   \* earlier attempt does not outlive the queue drained during the min-idle window
-  IF cv.ign > 0 THEN [cv |-> [cv EXCEPT !.q = <<>>, !.tuns = 0], dq |-> CvSmolExtend(dq, cv.q)]
+  \* (fix 6c7bac1): the releases that skip chord processing still release the active chords (release_in_active_chords,
+  \* the helper shared with drain_releases).  bug = "chv2_cooldown_skips_releases": the behaviour before the fix.
+  IF cv.ign > 0 THEN [cv |-> [cv EXCEPT !.q = <<>>, !.tuns = 0,
+                                        !.ach = IF bug = "chv2_cooldown_skips_releases" THEN @ ELSE CvReleaseAll(@, cv.q)],
+                      dq |-> CvSmolExtend(dq, cv.q)]
   ELSE IF cv.tuns > 0 /\ cv.pal = layer /\ cv.pql = Len(cv.q)
   THEN [cv |-> [cv EXCEPT !.tuns = CvSatSub(@, 1)], dq |-> dq]
   ELSE LET cv0 == [cv EXCEPT !.tuns = 0, !.pal = layer, !.pql = Len(cv.q)]
            v == CvDrainVirtualKeys(cv0, dq)
            r == CvDrainReleases(v.cv, v.dq)
-       IN [cv |-> CvProcessPresses(r.cv, tbl, cign, layer), dq |-> r.dq]
+       IN [cv |-> CvProcessPresses(r.cv, tbl, cign, layer, bug), dq |-> r.dq]
 
 \* src: chord.rs:521 clear_released_chords.  returns [cv, dq]
 RECURSIVE CvClearRec(_, _, _, _)
@@ -211,12 +233,12 @@ CvClearReleased(cv, dq) ==
   IN [cv |-> IF r.ovf THEN CvPanic(cv1, "assert:oops overflowed drain queue") ELSE cv1, dq |-> r.dq]
 
 \* src: chord.rs:201 tick_chv2.  returns [cv, dq]; TRIGGER_TAPHOLD_COORD = (0, 0)
-CvTick(cv, tbl, cign, layer) ==
+CvTick(cv, tbl, cign, layer, bug) ==
   LET cv0 == [cv EXCEPT !.q = [i \in DOMAIN @ |-> [@[i] EXCEPT !.s = CvSatAdd1(@)]],
                         !.ach = [i \in DOMAIN @ |-> IF @[i].st \in {"U", "UR"}
                                                     THEN [@[i] EXCEPT !.delay = CvSatAdd1(@)] ELSE @[i]]]
       n0 == Len(cv0.ach)
-      d == CvDrainInputs(cv0, <<>>, tbl, cign, layer)
+      d == CvDrainInputs(cv0, <<>>, tbl, cign, layer, bug)
       dq1 == IF Len(d.cv.ach) # n0 THEN CvSmolPush(d.dq, [p |-> TRUE, x |-> 0, y |-> 0, s |-> 0]).q ELSE d.dq
       dq2 == IF \E i \in DOMAIN d.cv.ach : d.cv.ach[i].st \in {"UR", "X"}
              THEN CvSmolPush(dq1, [p |-> FALSE, x |-> 0, y |-> 0, s |-> 0]).q ELSE dq1
